@@ -155,7 +155,7 @@ OneObjectG == E.ok =>
                      /\ \A j \in PointedAt : E.st.cache[j] \in 1..Len(E.st.objs)
                      /\ \A j \in PointedAt : \A k \in PointedAt : j # k => E.st.cache[j] # E.st.cache[k]
 
-MatcherOkG == (E.ok /\ Acyclic) => MatchStruct(E.st.objs[1], E.st.objs, BackRec, FALSE)
+MatcherOkG == (E.ok /\ Acyclic) => MatchStruct(E.st.objs[1], E.st.objs, BackRec, MatchOpts(FALSE, {}))
 
 (* a dropped kind holds a non-zero value directly in the root object *)
 RECURSIVE DroppedNonZero(_, _)
@@ -164,7 +164,7 @@ DroppedNonZero(fl, vals) ==
         IF FEmb(fl[i]) THEN DroppedNonZero(StructOf(FType(fl[i])[2]), vals[i][3])
         ELSE Dropped(FType(fl[i])) /\ vals[i] # Zero(FType(fl[i]))
 DropSeenG == (E.ok /\ Acyclic /\ DroppedNonZero(StructOf(RootS), E.st.objs[1][3]))
-               => ~MatchStruct(E.st.objs[1], E.st.objs, BackRec, TRUE)
+               => ~MatchStruct(E.st.objs[1], E.st.objs, BackRec, MatchOpts(TRUE, {}))
 
 AddKey(j) == [g EXCEPT ![j][2] = Append(@, <<"zz", <<"int", 1>> >>)]
 UnknownKeyG == E.ok => \A j \in {1} \cup Reach(g, 1) : ~Fill(AddKey(j), 1, NoOpts).ok
